@@ -737,3 +737,11 @@ def invert(prop, file, qual):
 for _v in list(V):
     if _v.get("transform") and _v["transform"][0] == "rename_locals":
         invert(_v["prop"], _v["transform"][1], _v["transform"][2])
+
+fire("c07-unbounded-memo-on-op-rule", "C07", DOMAINS,
+     "@find_domain.register(ops.ReductionOp)\ndef _find_domain_reduction(op, domain):", "@find_domain.register(ops.ReductionOp)\n@functools.lru_cache(maxsize=None)\ndef _find_domain_reduction(op, domain):",
+     "R07.8", "_find_domain_reduction")
+fire("c20-slice-augassign-on-index-data", "C20", TERMS,
+     "            data = self.slice.start + self.slice.step * index.data\n            return type(index)(data, index.inputs, self.output.dtype)",
+     "            data = index.data\n            if self.slice.step != 1:\n                data = data * self.slice.step\n            if self.slice.start != 0:\n                data += self.slice.start\n            return type(index)(data, index.inputs, self.output.dtype)",
+     "R20.3", "Slice.eager_subs")
